@@ -5,6 +5,8 @@ CONSTANTS
   Window = 1
   MaxRetries = 3
   MaxOps = 16
+  AtomicSave = TRUE
+  MaxCalls = 0
   GenHist = TRUE
 INIT Init
 NEXT GenNext
